@@ -1,6 +1,6 @@
 (* C18/Confs.v — assembles the chunk checks into the per-universe lemmas *)
 From Coq Require Import ZArith List Bool.
-From C18 Require Import Model Generated Spec Proofs ConfsA ConfsB ConfsC ConfsD ConfsE ConfsF ConfsG.
+From C18 Require Import Model Generated Spec Proofs ConfsA ConfsB ConfsC ConfsD ConfsE ConfsF ConfsG ConfsH ConfsI.
 Import ListNotations.
 Open Scope Z_scope.
 
@@ -10,9 +10,23 @@ Lemma U31_split : U31 = U31a ++ U31b ++ U31c.
 Proof. reflexivity. Qed.
 
 Lemma u22_ok : check_universe gen_flags U22 FUEL = true.
-Proof. rewrite U22_split. repeat apply check_universe_app; [exact u22a_ok | exact u22b_ok | exact u22c_ok]. Qed.
+Proof.
+  rewrite U22_split.
+  exact (check_universe_app gen_flags U22a (U22b ++ U22c) FUEL u22a_ok (check_universe_app gen_flags U22b U22c FUEL u22b_ok u22c_ok)).
+Qed.
 Lemma u31_ok : check_universe gen_flags U31 FUEL = true.
-Proof. rewrite U31_split. repeat apply check_universe_app; [exact u31a_ok | exact u31b_ok | exact u31c_ok]. Qed.
+Proof.
+  rewrite U31_split.
+  exact (check_universe_app gen_flags U31a (U31b ++ U31c) FUEL u31a_ok (check_universe_app gen_flags U31b U31c FUEL u31b_ok u31c_ok)).
+Qed.
+
+Lemma U2112_split : U2112 = U2112a ++ U2112b.
+Proof. reflexivity. Qed.
+Lemma u2112_ok : check_universe gen_flags U2112 FUEL = true.
+Proof.
+  rewrite U2112_split.
+  exact (check_universe_app gen_flags U2112a U2112b FUEL u2112a_ok u2112b_ok).
+Qed.
 
 Definition universe_statement (U : list config) : Prop :=
   forall cf, In cf U -> C18_outside_K_statement gen_flags cf /\ (racy cf = false -> C18_full_statement gen_flags cf).
@@ -24,9 +38,12 @@ Proof. intros _. exact (check_universe_sound _ _ _ u22_ok). Qed.
 Lemma conf_3x1 : shape_ok = true -> universe_statement U31.
 Proof. intros _. exact (check_universe_sound _ _ _ u31_ok). Qed.
 
+Lemma conf_2plus1_evict : shape_ok = true -> universe_statement U2112.
+Proof. intros _. exact (check_universe_sound _ _ _ u2112_ok). Qed.
+
 Lemma k1_torn : exists s, reach gen_flags cfg_get_upd s /\ enabled gen_flags (cfg_max cfg_get_upd) s = [] /\
   ~ lin_spec (cfg_disk cfg_get_upd) (rev (g_hist s)) (disk (g_core s)) /\ final_agree s = false /\
-  In (ERet 0 0 (RCont [])) (g_hist s) /\ mem (g_core s) = -2.
+  In (ERet 0 0 (RCont [])) (g_hist s) /\ mem (g_core s) = 2.
 Proof.
   destruct (refutes_sound _ _ _ _ k1_torn_ok) as (s & Hr & He & Hc). exists s.
   unfold chk_k1_torn in Hc. repeat (apply andb_true_iff in Hc; destruct Hc as [Hc ?]).
